@@ -658,7 +658,7 @@ package zapcore
 //@   flags nopanic propagates-panics
 //@   requires c != nil
 //@   assumes forall i int :: 0 <= i && i < len(fields) ==> wfEnc(fields[i])
-//@   assumes isJ(c.enc)
+//@   assumes isJ(c.enc)     // the core's encoder is one of zap's two encoders (JSON or console)
 //@   track AF = call zapcore.addFields
 //@   modifies $user, comp(E:uint8), fields(zapcore.jsonEncoder), buffer.Buffer.bs
 //@   ensures typeof(result) == type(*ioCore) && fresh(as(result, type(*ioCore))) && as(result, type(*ioCore)).LevelEnabler == c.LevelEnabler && as(result, type(*ioCore)).out == c.out
